@@ -43,15 +43,17 @@ Definition add_log (s : st) (r : res) (e : bool) : st :=
      ext := ext s; log := log s ++ [(r, e)] |}.
 
 (* curio.py:333-343 _set_task_deadline *)
+Definition opt_in (o : option Z) (l : list Z) : bool :=
+  match o with None => false | Some x => existsb (Z.eqb x) l end.
+(* the record of the last timeout that fired is forgotten on entry - unless it is that of an enclosing block
+   that is still active (its cancellation is being delivered: this block was entered while it unwinds) *)
 Definition set_deadline (s : st) (d : Z) : st :=
   let a := match minl (deadlines s) with
            | Some m => if d <? m then Some d else armed s
            | None => Some d end in
-  upd s (now s) (deadlines s ++ [d]) None a (ext s).
+  upd s (now s) (deadlines s ++ [d]) (if opt_in (timed_out s) (deadlines s) then timed_out s else None) a (ext s).
 
 (* curio.py:346-354 _unset_task_deadline : (timed_out_deadline, uncaught, state) *)
-Definition opt_in (o : option Z) (l : list Z) : bool :=
-  match o with None => false | Some x => existsb (Z.eqb x) l end.
 Definition unset_deadline (s : st) : option Z * bool * st :=
   let tod := timed_out s in
   let uncaught := negb (opt_in tod (deadlines s)) in
